@@ -944,7 +944,11 @@ def check_index(run: Run, lfi, fr, fobj, rows) -> None:
             # no difference exists (single row) or differences are not finite: SPACING, if present, must at least be a
             # number that could be "that signed difference" -- a NaN never is; an infinite spacing is accepted when
             # every difference is that same infinity
-            if sp is not None and isinstance(sp, float) and not math.isfinite(sp):
+            if sp is not None and isinstance(sp, float) and not math.isfinite(sp) and n >= 2 and all(math.isfinite(x) for x in vals):
+                # every index value is finite, their difference merely overflowed: the SPACING written is not "that difference"
+                run.v('C13', 'spacing-not-finite', 'spacing-nonfinite:overflowed-difference',
+                      f'frame {fname!r}: SPACING {sp!r} for the finite index values {vals[0]!r}, {vals[1]!r}, ..')
+            elif sp is not None and isinstance(sp, float) and not math.isfinite(sp):
                 same_inf = n >= 2 and all(d == D[0] for d in D) and sp == D[0]
                 if not same_inf:
                     run.v('C13', 'spacing-not-finite', 'spacing-nonfinite:' + ('single-row' if n < 2 else 'nonfinite-diff'),
